@@ -9,7 +9,7 @@ import random
 
 from engine import tlc, core, tracecheck
 
-CLASS_OF = {"OK": "ok", "HANDLER_RAISES": "raises", "BAD_VERSION": "bad", "TYPE_UNKNOWN": "bad", "TYPE_WRONG_DIR": "tolerable",
+CLASS_OF = {"OK": "ok", "HANDLER_RAISES": "raises", "HANDLER_CLOSES": "closes", "BAD_VERSION": "bad", "TYPE_UNKNOWN": "bad", "TYPE_WRONG_DIR": "tolerable",
             "LEN_LT_8": "nolen", "LEN_LT_NEEDED": "badlen", "LEN_GT_ACTUAL": "badlen",
             "INNER_LEN_BAD": "tolerable", "TRUNCATED": "partial", "MUTATED": "junk", "RANDOM": "junk"}
 
@@ -21,7 +21,7 @@ def drive(sc):
   side, kind, fault, param, pos, la, plan = sc[:7]
   prev = sc[7] if len(sc) > 7 else None      # kind of the well-formed message right before the faulty one
   Loop = L.ControllerLoop if side == "ctl" else L.SwitchLoop
-  fx = L.RAISE_XID if fault == "HANDLER_RAISES" else 10 + pos
+  fx = L.RAISE_XID if fault == "HANDLER_RAISES" else L.CLOSE_XID if fault == "HANDLER_CLOSES" else 10 + pos
   c = L.corrupt(side, kind, fx, fault, param)
   if c is None:
     return None
@@ -87,7 +87,7 @@ def drive(sc):
             idx = junk                          # whatever came out of the junk bytes counts as its delivery
           elif idx and idx >= nxt[x] and idx <= fed[x]:
             orig = msgs[x][idx - 1]
-            if cls[x][idx - 1] in ("ok", "raises"):
+            if cls[x][idx - 1] in ("ok", "raises", "closes"):
               # the delivered object must be the message that was sent: exact bytes for body-less / opaque-body
               # kinds, type and length for kinds POX re-encodes in normalised form
               exact = t in (rb.HELLO, rb.ECHO_REQUEST, rb.ECHO_REPLY, rb.BARRIER_REQUEST, rb.BARRIER_REPLY)
@@ -200,6 +200,15 @@ def run(ctx):
   rnd = random.Random(ctx.seed)
   scs = scenarios(quick, rnd)
   traces = [t for t in core.run_driver_guarded("props.C10:drive", scs, hung, chunk=25) if t is not None]
+  # vacuity guard: every scenario must have fed both connections something, on both sides of the protocol
+  idle = [t["scenario"] for t in traces if sum(1 for e in t["events"] if e["e"] == "feed") < 2
+          and not any(e["e"] in ("died", "diverged") for e in t["events"])]
+  if idle:
+    raise core.Machinery("%d scenarios fed nothing to the loop (harness broken), e.g. %s" % (len(idle), idle[0]))
+  for side in ("ctl", "sw"):
+    if not any(t["scenario"][0] == side and t["scenario"][2] == "HANDLER_CLOSES" and
+               any(e["e"] in ("close", "died", "diverged") for e in t["events"]) for t in traces):
+      raise core.Machinery("no %s scenario in which a handler gave its connection up and the close was seen" % side)
   # negative controls: a clean connection that gets closed; a dead loop
   ok_tr = [t for t in traces if t["scenario"][2] == "OK"]
   bad1 = copy.deepcopy(ok_tr[0])
